@@ -57,3 +57,20 @@ CHECKS['C13'] = dict(
     technique='exhaustive enumeration of code points x bounded enumeration of cmap structures on the real code vs reference model',
     assumptions=['subtables laid out in encoding-record order'],
 )
+
+from checks_py import interp_diff
+
+CHECKS['C07'] = dict(
+    level='model_checking',
+    steps=[dict(mode='asan', bin='c07_vm'), dict(mode='asan-call', bin='c07_vm'),
+           dict(name='interp_diff_corpus', py=interp_diff('c07_shape', ['corpus']), targets=[('asan', 'c07_shape'), ('asan-call', 'c07_shape')])],
+    rule='(a) operand decoding: PUSH_BYTE/BYTEU x all 256, PUSH_SHORT/SHORTU x all 65536, PUSH_LONG x (2^17 hi-half x {0,FFFF} + boundary^2); '
+         '(b) ALL straight-line programs of <=4 (quick) / <=5 (thorough) atoms over 37 atoms (12 boundary operand pushes, 22 arithmetic/comparison/logical/conditional/truncation/bit opcodes, 2 BITSET parameterisations, NOP) x 3 terminators, '
+         'filtered by the REAL loader (Machine::Code as a constraint), executed on the real Machine in both interpreter builds and compared with a reference evaluator written from doc/OpCodes.adoc; '
+         '(c) every shipped font x corpus line/word x dir shaped by both builds, per-case dump hashes compared. distinct = distinct (value,status) results / distinct segment dumps',
+    state_meaning='one bytecode program (or corpus shaping case); transitions = program executions compared with the reference evaluator / with the other interpreter build',
+    level_text='Exhaustive enumeration of all short straight-line programs over the arithmetic/logic opcode subset, each run on the real VM (both interpreters) against an independent 32-bit reference evaluator; differential shaping of the corpora between the two interpreter builds.',
+    level_note='Trusted: reference evaluator (doc/OpCodes.adoc semantics, numbering frozen in /verif: 0x3E OR, 0x3F AND). Program length <= 5 atoms; operand values from a 12-value boundary set. Slot/segment-touching opcodes are covered by C02/C06.',
+    technique='exhaustive bounded program enumeration on the real VM vs reference evaluator; cross-build differential',
+    assumptions=['opcode numbering 0x3E=BITOR 0x3F=BITAND as implemented by the GDL compiler (doc rows are swapped, DESIGN 5.2)'],
+)
